@@ -47,27 +47,62 @@ func VerifC18Para(s string) int {
 // VerifC18Typed: a typed document with arbitrary bytes in one field: the parser returns, and returns either a
 // value or an error, never both.
 func VerifC18Typed(kind int, doc string) int {
-	rd := bufio.NewReader(strings.NewReader(doc))
-	switch kind {
-	case 0:
-		c, err := ParseDsc(rd, "/d/x.dsc")
-		if (err != nil) == (c != nil) {
-			return 1
+	run := func() (int, string) {
+		rd := bufio.NewReader(strings.NewReader(doc))
+		switch kind {
+		case 0:
+			c, err := ParseDsc(rd, "/d/x.dsc")
+			if (err != nil) == (c != nil) {
+				return 1, ""
+			}
+			if err == nil {
+				return 0, dumpDSC(c)
+			}
+		case 1:
+			c, err := ParseChanges(rd, "/d/x.changes")
+			if (err != nil) == (c != nil) {
+				return 2, ""
+			}
+			if err == nil {
+				return 0, dumpChanges(c)
+			}
+		case 2:
+			c, err := ParseControl(rd, "debian/control")
+			if (err != nil) == (c != nil) {
+				return 3, ""
+			}
+			if err == nil {
+				return 0, dumpControl(c)
+			}
+		case 3:
+			l, err := ParseBinaryIndex(rd)
+			if err == nil {
+				out := ""
+				for i := range l {
+					out += "#" + dumpBinaryIndex(&l[i])
+				}
+				return 0, out
+			}
+		case 4:
+			l, err := ParseSourceIndex(rd)
+			if err == nil {
+				out := ""
+				for i := range l {
+					out += "#" + dumpSourceIndex(&l[i])
+				}
+				return 0, out
+			}
 		}
-	case 1:
-		c, err := ParseChanges(rd, "/d/x.changes")
-		if (err != nil) == (c != nil) {
-			return 2
-		}
-	case 2:
-		c, err := ParseControl(rd, "debian/control")
-		if (err != nil) == (c != nil) {
-			return 3
-		}
-	case 3:
-		ParseBinaryIndex(rd)
-	case 4:
-		ParseSourceIndex(rd)
+		return 0, "E"
+	}
+	c1, d1 := run()
+	if c1 != 0 {
+		return c1
+	}
+	// the same bytes again: the same outcome, field for field
+	c2, d2 := run()
+	if c2 != 0 || d1 != d2 {
+		return 7
 	}
 	return 0
 }
